@@ -109,6 +109,15 @@ theorem specSegs_ok : ∀ (specs : List SegSpec) (k : Nat), ∀ s ∈ specSegs k
     · exact ⟨rfl, kidLines_indent _ _⟩
     · exact ih _ s hs
 
+theorem specSegs_append : ∀ (a b : List SegSpec) (k : Nat), ∃ k', specSegs k (a ++ b) = specSegs k a ++ specSegs k' b := by
+  intro a
+  induction a with
+  | nil => intro b k; exact ⟨k, rfl⟩
+  | cons s rest ih =>
+    intro b k
+    obtain ⟨k', h⟩ := ih b (k + s.size)
+    exact ⟨k', by simp only [List.cons_append, specSegs, h]⟩
+
 theorem clean_specPLines (specs : List SegSpec) (h : ∀ s ∈ specs, s.Clean) : ∀ p ∈ specPLines specs, p.Clean := by
   intro p hp
   simp only [specPLines, List.mem_flatMap] at hp
